@@ -378,13 +378,21 @@ static const char* rel_under_root(const char* path, char* out, size_t outsz) {
         char cwd[512]; if (!getcwd(cwd, sizeof cwd)) return nullptr;
         snprintf(abs, sizeof abs, "%s/%s", cwd, path);
     } else snprintf(abs, sizeof abs, "%s", path);
-    // light normalisation: collapse "//" and "/./"
+    // lexical normalisation: collapse "//", "/./" and "/x/../"
     char norm[1024]; size_t j = 0;
-    for (size_t i = 0; abs[i] && j + 1 < sizeof norm; i++) {
-        if (abs[i] == '/' && abs[i + 1] == '/') continue;
-        if (abs[i] == '/' && abs[i + 1] == '.' && (abs[i + 2] == '/' || !abs[i + 2])) { i++; continue; }
-        norm[j++] = abs[i];
+    for (size_t i = 0; abs[i] && j + 2 < sizeof norm;) {
+        if (abs[i] == '/') {
+            while (abs[i + 1] == '/') i++;
+            if (abs[i + 1] == '.' && (abs[i + 2] == '/' || !abs[i + 2])) { i += 2; continue; }
+            if (abs[i + 1] == '.' && abs[i + 2] == '.' && (abs[i + 3] == '/' || !abs[i + 3])) {
+                while (j > 0 && norm[j - 1] != '/') j--;
+                if (j > 0) j--;
+                i += 3; continue;
+            }
+        }
+        norm[j++] = abs[i++];
     }
+    if (j == 0) norm[j++] = '/';
     norm[j] = 0;
     for (int r = 0; r < p_nroots; r++) {
         size_t n = strlen(p_roots[r]);
